@@ -15,7 +15,7 @@ EXPLAINED = {
 
 class C02(Property):
     id = "C02"
-    lean_module = "RosuModel.Props.C02All"   # imports Props/C02Slider.lean and Props/C02Timing.lean (which import Props/C02.lean); all in namespace Rosu.C02
+    lean_module = "RosuModel.Props.C02All"   # imports Props/C02Slider.lean, Props/C02Timing.lean and Props/C02Codec.lean (which import Props/C02.lean); all in namespace Rosu.C02
     namespace = "Rosu.C02"
     design_ref = "5.2"
     required_theorems = ["trim_cons_space", "kvSplit_kvLine", "kv_line_roundtrip", "int_display_parse", "int_display_clean",
@@ -25,12 +25,26 @@ class C02(Property):
                          "path_string_roundtrip", "path_string_roundtrip_fresh", "slider_rt", "slider_rt_exact", "decodedNodes_get",
                          "node_names_banks", "node_samples_rt", "slider_laws_satisfiable", "hitobjects_block_rt",
                          "timing_line_rt", "inherited_line_rt", "redundant_group_no_effect", "timing_laws_satisfiable", "timing_block_redecoded",
-                         "timing_rt", "timing_rt_laws_satisfiable", "timing_roundtrip_file", "sample_timeline_hyps"]
+                         "timing_rt", "timing_rt_laws_satisfiable", "timing_roundtrip_file", "sample_timeline_hyps",
+                         "parseBits_printBits_f64", "parseBits_printBits_f32", "parseBits_printBits", "printBits_clean", "printBits_ne_nil",
+                         "parseDecimal_renderDecimal", "roundRat_of_inInterval", "roundRat_spec", "roundRat_eq_iff", "shortestDigits_inInterval",
+                         "codecLaws_float", "codecLaws_float32", "editor_block_roundtrip_ieee", "difficulty_block_roundtrip_ieee",
+                         "events_block_roundtrip_ieee", "printBits_intBits_f64", "printBits_of_int_value", "intPrintLaw_float",
+                         "general_block_roundtrip_ieee"]
     partial_theorems = {
         "editor_block_roundtrip / difficulty_block_roundtrip / general_block_roundtrip / events_block_roundtrip / records_roundtrip":
             "law-dependent: proved for every number codec satisfying CodecLaws (parse(print x) = x on the representable values; printed numbers are non-empty and made of "
             "number characters only) and, for AudioLeadIn, IntPrintLaw (integral values print like integers). The laws are shown satisfiable by the toy codec of Lemmas/ToyCodec.lean "
-            "(laws_satisfiable); that Rust's Display/FromStr for f32/f64 satisfy them is not proved (recorded assumption, exercised by lib/codecgen.py). metadata_block_roundtrip and "
+            "(laws_satisfiable) AND are now theorems for the model's real IEEE codec at the bit level (Props/C02Codec.lean, Lemmas/FloatCodecLaws*.lean): parseBits (printBits b) = some b "
+            "for every non-NaN binary32 / binary64 bit pattern (parseBits_printBits_f32 / _f64: signs, zeros, infinities, subnormals, normals; via roundRat_of_inInterval / roundRat_spec — correct rounding, "
+            "ties to even, underflow to 0, overflow to infinity: roundRat f x = b iff x lies in the rounding interval of b — and shortestDigits_inInterval), printBits_clean, printBits_ne_nil. For the driver's Float / Float32 instances this gives CodecLaws on the non-NaN values "
+            "(codecLaws_float / codecLaws_float32, and editor_ / difficulty_ / events_block_roundtrip_ieee) from ONE hypothesis each, FloatBitsLaw / Float32BitsLaw "
+            "(ofBits (toBits x) = x and toBits x is not a NaN pattern, for non-NaN x): Lean's Float is opaque to the kernel, so this statement about the runtime's bit casts cannot be proved; "
+            "it is exercised by the codec differential. IntPrintLaw (AudioLeadIn) is proved at the bit level too: every integer z with |z| < 2^53 prints as intDigits z "
+            "(printBits_intBits_f64, where intBits fmt64 z is the pattern roundRat / parseBits assigns to z; printBits_of_int_value for any integer-valued pattern), and IntPrintLaw Float "
+            "(intPrintLaw_float, general_block_roundtrip_ieee) follows from the runtime hypothesis FloatOfIntLaw (Float.ofInt z has that pattern on the i32 range). Still NOT proved: that shortestDigits returns the shortest / closest digits and never "
+            "reaches its exact-expansion fallback (irrelevant for the round trip, relevant only for agreement with Rust); and that Rust's own Display/FromStr equal printBits/parseBits "
+            "(recorded assumption, compared on >10^6 values per run by lib/codecgen.py). metadata_block_roundtrip and "
             "colours_block_roundtrip need no law (integers: int_display_parse is proved of the model's own i32/u32/u8 codec)",
         "records_roundtrip": "file level for the six record sections only (format version, general on the preserved view, editor, metadata with positive ids, difficulty, background/breaks, "
             "colours with alpha 255): the re-decoded Beatmap has these fields equal to the original's. It assumes of the [TimingPoints] and [HitObjects] blocks only their shape "
@@ -100,7 +114,8 @@ class C02(Property):
                   "timing_block_redecoded (the re-decoded control points are the decoder's state machine run over exactly the values written), and the timing-point round trip itself in exact "
                   "arithmetic (timing_rt, timing_roundtrip_file: same timing points, same effective slider velocity / scroll speed and kiai at every time — encoder group loop and redundancy "
                   "suppression against the decoder's pending groups, precedence and redundancy checks). Everything that prints floats is proved for every "
-                  "lawful number codec. The per-map assembly of the object lines (that a decoded map's objects are representable) is not a theorem. Model of decoder and encoder compared three ways on every case (decoded map, encoded text character for character, re-decoded map); "
+                  "lawful number codec; the model's own IEEE codec is proved lawful at the bit level (parse(print b) = b for every non-NaN f32/f64 pattern; printed numbers clean and non-empty) "
+                  "and the Float/Float32 instances are lawful given one bit-cast hypothesis about Lean's opaque runtime floats. The per-map assembly of the object lines (that a decoded map's objects are representable) is not a theorem. Model of decoder and encoder compared three ways on every case (decoded map, encoded text character for character, re-decoded map); "
                   "the property itself — preserved(decode(encode(decode x))) = preserved(decode x) for chronological inputs — is evaluated on the real code over the structured generator "
                   "(all sections, four modes, versions 3..128, all object kinds, multi-segment paths, same-time timing groups, hostile-but-accepted numerics), field-level mutations of the "
                   "bundled maps and the bundled maps themselves.")
@@ -108,6 +123,8 @@ class C02(Property):
     trusted_base = [
         "Lean 4.33.0 kernel; axioms ⊆ {propext, Classical.choice, Quot.sound} per #print axioms",
         "hand-written decode + encode models tied to /repo by the `rt` differential of this run",
+        "number codec: the model's printBits/parseBits are proved mutually inverse on non-NaN patterns; that they equal Rust's Display/FromStr is tested (lib/codecgen.py), not proved; "
+        "FloatBitsLaw / Float32BitsLaw (bit casts of Lean's runtime Float) and FloatOfIntLaw (Float.ofInt on the i32 range) are hypotheses of codecLaws_float(32) / intPrintLaw_float, not provable in the kernel",
     ]
     assumptions = ["domain check (chronological object and accepted timing lines) is made on the implementation's own pre-sort objects and parser log",
                    "slider velocity (carried only through 100/(100/sv)) may drift by ≤ 4 ulp; reported in the OK line, larger drift fails"]
